@@ -1,6 +1,9 @@
 /* Driver for C17 (objects live while referenced or busy and are finalised exactly once).
  *
  * Seeded random histories per object type.  One EXECUTION builds a small object graph
+ *   queue    : (legacy variant: active Q from dispatch_queue_create, retargeted with dispatch_set_target_queue to
+ *              fresh queues N1, N2 <- T while it is idle / suspended / busy, the application dropping each new target
+ *              right after the call)
  *   queue    : bottom target T [<- middle M] <- Q (serial | concurrent, maybe initially inactive and retargeted
  *              before activation; context + finalizer + queue-specific keys with destructors) [<- child C]
  *   source   : T <- S (DATA_ADD or TIMER source, context + finalizer, event [+ cancel] handler)
@@ -38,6 +41,7 @@ typedef struct tobj {
 	_Atomic long cur_ctx;          /* id of the context currently set (0 = NULL) */
 	_Atomic int fin_runs, dtor_runs[2];
 	_Atomic uint64_t fin_seq, dtor_seq[2], last_rel_seq, disp_seen;
+	_Atomic uint64_t needed_until;  /* recorded moment until which some live queue had it as current or pending target */
 	long fin_ctx; long fin_where;
 	int nkeys;
 	ctxcell_t ctx[MAXCTX], key[2];
@@ -53,7 +57,7 @@ typedef struct item {
 static int g_execs = 8, g_ops = 14, g_scen_mask = 0x1f, g_mode;
 static uint64_t g_seed;
 static tobj_t g_o[MAXO];
-static int g_no, g_scen, g_after, g_timer, g_exec;
+static int g_no, g_scen, g_after, g_timer, g_exec, g_legacy;
 static item_t g_items[MAXI];
 static _Atomic int g_nitems;
 static _Atomic int g_hold[NT][MAXO];
@@ -248,8 +252,13 @@ static void queue_ops(int me, int slot)
 	else if (k < 16) { if (atomic_load(&g_hold[me][slot]) > 1) do_release(me, slot); }
 	else if (k < 40) it = new_item(slot, IK_ASYNC, pick_body(), 1, 0);
 	else if (k < 50) it = new_item(slot, IK_BASYNC, pick_body(), 1, 0);
-	else if (k < 60) it = new_item(slot, IK_SYNC, vrt_rand() & 1 ? B_SPIN : B_NONE, 1, 0);
-	else if (k < 66) it = new_item(slot, IK_APPLY, B_NONE, 3, 0);
+	/* legacy-retarget executions: no client dispatch_sync / dispatch_apply on the queue while another thread retargets
+	 * it.  In the pinned library _dispatch_sync_complete_recurse re-reads dq->do_targetq AFTER it unlocked dq, so a
+	 * retarget barrier that runs in between makes the sync caller "complete" queues it never locked (dq_state
+	 * underflow, the new targets stay suspended for ever).  That is a lane-state defect outside C17 (reported to the
+	 * coordinator); triggering it here would only produce hangs that are not C17's to judge. */
+	else if (k < 60) it = new_item(slot, g_legacy ? IK_ASYNC : IK_SYNC, vrt_rand() & 1 ? B_SPIN : B_NONE, 1, 0);
+	else if (k < 66) it = g_legacy ? new_item(slot, IK_BASYNC, B_NONE, 1, 0) : new_item(slot, IK_APPLY, B_NONE, 3, 0);
 	else if (k < 74) { if (g_after && slot == 2) it = new_item(slot, IK_AFTER, B_NONE, 1, 0); else it = new_item(slot, IK_ASYNC, B_SLEEP, 1, 0); }
 	else if (k < 82) {
 		vrt_api("Susp", o->idx, 0, 0, 0);
@@ -524,6 +533,7 @@ static void check_object(int s, uint64_t last_end)
 		if (o->fin_ctx != ctx) oracle_fail("finalizer got a context that was not the current one", o->fin_ctx, ctx);
 		if (fs < atomic_load(&o->last_rel_seq)) oracle_fail("finalizer ran before the last external release", s, 0);
 		if (fs < last_end) oracle_fail("finalizer ran before the object's pending work finished", s, 0);
+		if (fs < atomic_load(&o->needed_until)) oracle_fail("object finalized while a live queue had it as its current or pending target", s, 0);
 		if (o->fin_where != (o->target >= 0 ? o->target + 1 : 0)) oracle_fail("finalizer did not run on the target queue", o->fin_where, o->target + 1);
 	}
 	for (int k = 0; k < o->nkeys; k++) {
@@ -532,6 +542,7 @@ static void check_object(int s, uint64_t last_end)
 		uint64_t ds = atomic_load(&o->dtor_seq[k]);
 		if (dr && ds < atomic_load(&o->last_rel_seq)) oracle_fail("queue-specific destructor ran before the last external release", s, k);
 		if (dr && ds < last_end) oracle_fail("queue-specific destructor ran before the pending work finished", s, k);
+		if (dr && ds < atomic_load(&o->needed_until)) oracle_fail("object disposed while a live queue had it as its current or pending target", s, k);
 	}
 }
 
@@ -548,6 +559,40 @@ static void check_items(uint64_t *last_end)
 	}
 }
 
+/* dispatch_set_target_queue on the ACTIVE queue Q (slot 2) while the clients work on it: Q is idle-or-whatever,
+ * suspended by this thread, or made busy, at the call; right after the call the application drops its only reference
+ * on the new target (the canonical "dispatch_set_target_queue(q, tq); dispatch_release(tq);"), later resumes.  From the
+ * call on the new target is Q's pending target; the old one stays its target until the retarget barrier ran. */
+static int g_lcur, g_ldone, g_ln;
+static void legacy_retarget_one(int mode)
+{
+	tobj_t *q = &g_o[2];
+	int k = g_ldone++, nt = 3 + k, cur = g_lcur;
+	if (mode == 1) { vrt_api("Susp", q->idx, 0, 0, 0); dispatch_suspend(q->ptr); rest(); }
+	else if (mode == 2) for (int i = 0; i < 3; i++) { item_t *it = new_item(2, IK_ASYNC, B_SLEEP, 1, 0); if (it) submit(it); }
+	uint64_t sq = vrt_api("Retarget", q->idx, g_o[nt].idx, cur >= 0 ? g_o[cur].idx : -1, 0);
+	if (cur >= 0) amax(&g_o[cur].needed_until, sq);
+	q->target = nt;
+	dispatch_set_target_queue(q->ptr, g_o[nt].ptr); rest();
+	do_release_raw(nt);
+	if (mode == 1) {
+		usleep((unsigned)(vrt_rand() % 1200));
+		vrt_api("Res", q->idx, 0, 0, 0); dispatch_resume(q->ptr); rest();
+	} else if (vrt_rand() & 1) { item_t *it = new_item(2, IK_SYNC, B_NONE, 1, 0); if (it) submit(it); }
+	g_lcur = nt;
+	vrt_progress();
+}
+static void legacy_retargets(void)
+{
+	while (g_ldone < g_ln) {
+		usleep((unsigned)(vrt_rand() % 1500));
+		legacy_retarget_one((int)(vrt_rand() % 3));
+	}
+	/* a target that was never used goes away with the application's reference */
+	for (int k = g_ln; k < 2; k++) do_release_raw(3 + k);
+	do_release_raw(2);
+}
+
 static void run_execution(int e)
 {
 	g_exec = e;
@@ -559,14 +604,16 @@ static void run_execution(int e)
 	g_no = 0; atomic_store(&g_nitems, 0); atomic_store(&g_done_threads, 0);
 	atomic_store(&g_handlers_running, 0); atomic_store(&g_cancelled, 0); atomic_store(&g_data_destructed, 0);
 	memset(g_hold, 0, sizeof(g_hold));
-	g_after = 0; g_timer = 0;
+	g_after = 0; g_timer = 0; g_legacy = 0;
 	vrt_mark("Reset", g_scen, g_mode, 0);
 	tobj_t *T = NULL, *X = NULL;
 	switch (g_scen) {
 	case SC_QUEUE: {
 		int conc = (int)(vrt_rand() % 3 == 0), depth2 = (int)(vrt_rand() & 1), inact = (int)(vrt_rand() % 4 == 0);
 		int child = (int)(vrt_rand() % 3 == 0);
-		g_after = !child && (vrt_rand() % 3 == 0);
+		g_legacy = (g_mode & 1) ? 1 : (int)(vrt_rand() % 3 == 0);
+		if (g_legacy) { child = 0; inact = 0; }
+		g_after = !child && !g_legacy && (vrt_rand() % 3 == 0);
 		T = add_obj(KO_LANE, mkq("verif.T", 0, 0, NULL), 1, 0, 1, -1, 1, 1);
 		/* slot 1 is always the middle queue (created even when unused so that slots are fixed) */
 		tobj_t *M = add_obj(KO_LANE, mkq("verif.M", 0, 0, T->ptr), 1, 0, 1, 0, 1, 1);
@@ -590,6 +637,14 @@ static void run_execution(int e)
 				dispatch_set_target_queue(q, g_o[nt].ptr); rest();
 				tgt = nt;
 			}
+		} else if (g_legacy) {
+			/* dispatch_queue_create: active, default target, still mutable ("legacy"): retargeted later while it works */
+			q = mkq("verif.Q", conc, 0, NULL);
+			X = add_obj(KO_LANE, q, conc ? (int)upcast(q)._dl->dq_width : 1, 0, !conc, -1, (int)(vrt_rand() % 3), 2);
+			for (int k = 0; k < 2; k++) {
+				tobj_t *N = add_obj(KO_LANE, mkq(k ? "verif.N2" : "verif.N1", 0, 0, T->ptr), 1, 0, 1, 0, 1, 1);
+				targets(N, 0, -1);
+			}
 		} else {
 			q = mkq("verif.Q", conc, 0, g_o[tgt].ptr);
 			X = add_obj(KO_LANE, q, conc ? (int)upcast(q)._dl->dq_width : 1, 0, !conc && !g_after, tgt, (int)(vrt_rand() % 3), 2);
@@ -601,7 +656,7 @@ static void run_execution(int e)
 		}
 		/* hand one reference on Q to every client (on C to clients 0 and 1), then drop the creator's */
 		for (int c = 0; c < NT; c++) { do_retain(c, 2); if (child && c < 2) do_retain(c, 3); }
-		do_release_raw(2);
+		if (!g_legacy) do_release_raw(2);     /* the legacy variant keeps the creator's reference for the retargets */
 		if (child) do_release_raw(3);
 		break;
 	}
@@ -651,7 +706,13 @@ static void run_execution(int e)
 		break;
 	}
 	}
+	if (g_scen == SC_QUEUE && g_legacy) {
+		g_lcur = -1; g_ldone = 0; g_ln = 1 + (int)(vrt_rand() & 1);
+		/* sometimes the first retarget finds the queue idle (nobody uses it yet): the barrier runs inline (trysync) */
+		if (vrt_rand() % 3 == 0) legacy_retarget_one(0);
+	}
 	pthread_barrier_wait(&g_bar);
+	if (g_scen == SC_QUEUE && g_legacy) legacy_retargets();
 	while (atomic_load(&g_done_threads) < NT) usleep(200);
 	pthread_barrier_wait(&g_bar);
 	/* every client dropped everything; the bottom / middle queues are still held by this thread */
@@ -665,7 +726,15 @@ static void run_execution(int e)
 	uint64_t last_end[MAXO]; memset(last_end, 0, sizeof(last_end));
 	check_items(last_end);
 	/* work submitted to a child also is pending work of its target chain */
-	for (int s = g_no - 1; s >= 0; s--) if (g_o[s].target >= 0 && last_end[s] > last_end[g_o[s].target]) last_end[g_o[s].target] = last_end[s];
+	for (int pass = 0; pass < 4; pass++)
+		for (int s = g_no - 1; s >= 0; s--) if (g_o[s].target >= 0 && last_end[s] > last_end[g_o[s].target]) last_end[g_o[s].target] = last_end[s];
+	/* a target must outlive the application's references on the queues that (finally) target it */
+	for (int pass = 0; pass < 4; pass++)
+		for (int s = 0; s < g_no; s++) if (g_o[s].target >= 0) {
+			tobj_t *t = &g_o[g_o[s].target];
+			amax(&t->needed_until, atomic_load(&g_o[s].last_rel_seq));
+			amax(&t->needed_until, atomic_load(&g_o[s].needed_until));
+		}
 	for (int s = 0; s < g_no; s++) {
 		uint64_t le = last_end[s];
 		if (g_o[s].kind == KO_SOURCE && atomic_load(&g_o[s].disp_seen) > le) le = atomic_load(&g_o[s].disp_seen);
@@ -688,6 +757,7 @@ int main(int argc, char **argv)
 	if (argc > 4) g_execs = atoi(argv[4]);
 	if (argc > 5) g_ops = atoi(argv[5]);
 	if (argc > 6) g_scen_mask = (int)strtol(argv[6], NULL, 0);
+	if (argc > 9) g_mode = atoi(argv[9]);     /* bit 0: every queue execution is the legacy-retarget variant */
 	vrt_init(out, g_seed, perturb);
 	vrt_set_projector(proj);
 	vrt_add_class("os_obj_xref_cnt", CL_XREF);
